@@ -72,6 +72,27 @@ func reprEvent(c *ctx, typ string, val []byte) M {
 	ev["text"] = bs(txt)
 	bin, _ := v.MarshalBinary()
 	ev["bin"] = bs(bin)
+	// the results are KEPT while other identifiers are marshalled: a representation handed out must not change afterwards
+	for k := 0; k < 3; k++ {
+		var o1 lorawan.EUI64
+		var o2 lorawan.AES128Key
+		var o3 lorawan.DevAddr
+		var o4 lorawan.NetID
+		copy(o1[:], c.bytesN(8))
+		copy(o2[:], c.bytesN(16))
+		copy(o3[:], c.bytesN(4))
+		copy(o4[:], c.bytesN(3))
+		o1.MarshalText()
+		o2.MarshalText()
+		o3.MarshalText()
+		o4.MarshalText()
+		o1.MarshalBinary()
+		o3.MarshalBinary()
+		o4.MarshalBinary()
+		_ = o1.String() + o2.String() + o3.String() + o4.String()
+	}
+	ev["text_kept"] = bs(txt)
+	ev["bin_kept"] = bs(bin)
 	dv, _ := v.Value()
 	if b, ok := dv.([]byte); ok {
 		ev["dbval"] = bs(b)
